@@ -189,6 +189,15 @@ struct R<Tracked>
 
 // ------------------------------------------------------------------ schedule bursts
 static bool g_serialBackend = false;
+#if defined(RKCOMMON_TASKING_TBB)
+static const char *kBackendName = "tbb";
+#elif defined(RKCOMMON_TASKING_OMP)
+static const char *kBackendName = "omp";
+#elif defined(RKCOMMON_TASKING_INTERNAL)
+static const char *kBackendName = "internal";
+#else
+static const char *kBackendName = "debug";
+#endif
 
 // some cases re-configure the tasking system (another thread count) right after handing their work over, while it is
 // still queued: whatever was handed over before must run all the same
@@ -284,6 +293,53 @@ static bool scheduleBurst(int B, bool nested, int bodyDelay, const std::string &
   return true;
 }
 
+// ---- single submissions: one closure at a time, random idle gaps in between so that the workers are spinning,
+// about to sleep or asleep when it arrives; the caller only spins on a flag. A closure that has not started after
+// the patience period is a stall; whether a further, unrelated schedule() then gets it going tells a lost wake-up
+// from a task that is gone.
+static void singleSubmissions(long n, int maxGapUs, const std::string &ctx)
+{
+  std::atomic<long> ran(0);
+  std::atomic<long> *pr = &ran;
+  vh::Rng r(vh::hashStr(ctx.c_str(), 5), 77);
+  long stalls = 0;
+  double worst = 0;
+  for (long i = 0; i < n && stalls < 2; ++i) {
+    int gap = (int)r.below((uint64_t)maxGapUs + 1);
+    if (gap)
+      spinUs(gap);
+    long before = ran.load();
+    Cap cap((int)(i & 0xffff));
+    schedule([cap, pr]() {
+      if (cap.intact())
+        pr->fetch_add(1);
+    });
+    double t1 = vh::now();
+    bool started = true;
+    while (ran.load() == before) {
+      if (vh::now() - t1 > 6.0) {
+        started = false;
+        break;
+      }
+    }
+    if (started) {
+      double d = vh::now() - t1;
+      if (d > worst)
+        worst = d;
+      continue;
+    }
+    ++stalls;
+    schedule([]() {});  // a further action of the caller
+    bool woke = waitUntil([&]() { return ran.load() != before; }, 10.0);
+    vh::violation(woke ? std::string("C02:schedule:start-stall-until-further-action:") + kBackendName : std::string("C02:schedule:not-executed-within-watchdog"),
+                  "submission " + std::to_string(i) + " (after an idle gap of " + std::to_string(gap) + " us): the closure had not started 6 s after schedule() returned while the caller only spun; " +
+                      (woke ? "it ran once another closure was scheduled" : "it did not run within 10 s after another closure was scheduled either"),
+                  ctx);
+  }
+  vh::count("single_submissions", n);
+  vh::maxi("single_submission_worst_latency_us", (long long)(worst * 1e6));
+}
+
 // ------------------------------------------------------------------ async
 template <typename T>
 static void asyncBatch(int n, int bodyDelay, const std::string &ctx)
@@ -358,15 +414,6 @@ static bool g_asan = false;
 static std::atomic<long> g_pollScenarios(0);
 static std::mutex g_stallMtx;
 static std::vector<std::string> g_stalls;
-#if defined(RKCOMMON_TASKING_TBB)
-static const char *kBackendName = "tbb";
-#elif defined(RKCOMMON_TASKING_OMP)
-static const char *kBackendName = "omp";
-#elif defined(RKCOMMON_TASKING_INTERNAL)
-static const char *kBackendName = "internal";
-#else
-static const char *kBackendName = "debug";
-#endif
 
 // end of a child process: turn recorded start stalls into violations.  A task that practically
 // never starts without the caller waiting is `not-finished-within-watchdog`; a stall that hits
@@ -503,6 +550,8 @@ static std::string describe(const Case &c, long k, int T)
     s += std::string("schedule burst of ") + std::to_string(c.size) + (c.nested ? " (each schedules a further task)" : "");
   else if (c.kind == 1)
     s += std::string("async<") + kTypes[c.type] + "> x" + std::to_string(c.size);
+  else if (c.kind == 3)
+    s += "single submissions x" + std::to_string(c.size) + " idle gaps 0.." + std::to_string(c.bodyDelay) + " us";
   else
     s += std::string("AsyncTask<") + kTypes[c.type] + "> x" + std::to_string(c.size) + " timeline=" + std::to_string(c.timeline) + " slowCtorUs=" + std::to_string(c.slowCtor) +
          " slowAssignUs=" + std::to_string(c.slowAssign);
@@ -549,6 +598,8 @@ static void runCase(const Case &c, long k, int T)
     default: asyncVoidAndMoveOnly(c.size, ctx); break;
     }
     vh::count("async_batches");
+  } else if (c.kind == 3) {
+    singleSubmissions(c.size, c.bodyDelay, ctx);
   } else {
     switch (c.type) {
     case 0: asyncTaskBatch<int>(c, ctx, r); break;
@@ -591,6 +642,23 @@ static std::vector<Case> buildCases(int T, bool asan, bool omp, bool internalBac
     v.push_back(c);
   }
   c.reinit = 0;
+  // single submissions with idle gaps around the workers' spin-then-sleep transition
+  {
+    int gaps[] = {0, 40, 300, 3000};
+    for (int gi = 0; gi < 4; ++gi) {
+      c.kind      = 3;
+      c.type      = 0;
+      c.timeline  = -1;
+      c.nested    = false;
+      c.bodyDelay = gaps[gi];  // here: the largest idle gap in us
+      c.size      = (int)(vh::tier(asan ? 6000 : 20000, asan ? 30000 : 200000) / (gaps[gi] >= 3000 ? 10 : 1));
+      if (omp && c.size > 5000)
+        c.size = 5000;
+      c.slowCtor = c.slowAssign = 0;
+      c.inject    = 0;
+      v.push_back(c);
+    }
+  }
   // schedule bursts
   int bursts[] = {1, 2, 10, 255, 256, 257, 600, 1000, (int)vh::tier(3000, 10000), (int)vh::tier(0, 100000)};
   for (size_t i = 0; i < sizeof(bursts) / sizeof(bursts[0]); ++i) {
